@@ -6,6 +6,7 @@ use std::panic::catch_unwind;
 
 mod statuslist;
 mod jws;
+mod revocation;
 mod sdjwt;
 mod ts;
 mod cred;
@@ -83,6 +84,7 @@ fn main() {
     "presentation_validation" => cred::presentation_validation(&cex),
     "timestamp" => ts::timestamp(&cex),
     "sd_jwt" => sdjwt::sd_jwt(&cex),
+    "revocation" => revocation::bitmap(&cex),
     "kani" => kani_replay(&cex),
     "selftest" => selftest(),
     _ => Err(format!("unknown scenario {scenario}")),
